@@ -497,6 +497,7 @@ class _Count:
         self.outs: Set[str] = _out_names(fn)
         self.forced: Dict[str, int] = {}  # case split: header byte name -> value
         self.vals: Dict[str, Poly] = {}  # local name -> byte length of the bytes value it holds
+        self.seq_len: Dict[str, int] = {a_.targets[0].id: len(a_.value.elts) for a_ in ast.walk(fn) if isinstance(a_, ast.Assign) and len(a_.targets) == 1 and isinstance(a_.targets[0], ast.Name) and isinstance(a_.value, (ast.Tuple, ast.List)) and all(isinstance(e_, ast.Constant) for e_ in a_.value.elts)}
 
     def bytes_of(self, e: ast.AST) -> Optional[Poly]:
         """Length in bytes of the value written."""
@@ -598,6 +599,14 @@ class _Count:
         it = st.iter
         if isinstance(it, ast.Call) and call_name(it) == "range" and len(it.args) == 1:
             return poly_eval(it.args[0], self.env)
+        if isinstance(it, ast.Call) and call_name(it) == "range" and len(it.args) in (2, 3):
+            cs_ = [poly_eval(a_, self.env).is_const() for a_ in it.args]
+            if all(c_ is not None for c_ in cs_) and (len(cs_) == 2 or cs_[2] != 0):
+                return Poly.const(len(range(*cs_)))
+        if isinstance(it, (ast.Tuple, ast.List)):
+            return Poly.const(len(it.elts))
+        if isinstance(it, ast.Name) and it.id in self.seq_len:
+            return Poly.const(self.seq_len[it.id])
         if isinstance(it, ast.Name):
             if it.id in self.env_len:
                 return self.env_len[it.id]
@@ -1330,8 +1339,15 @@ def d7(ctx: Ctx):
     src = unparse(ms)
     m = re.search(r"(\w+) = convert\(", src)
     ctx.need(m is not None, "maxtoppm.start", "result of convert() is not kept")
-    okr = re.search(rf"if not {m.group(1)}:\s+os\.remove\(args\.output_image\.name\)", src) is not None
-    ctx.ob("maxtoppm:remove-on-failure", okr, "" if okr else "start() no longer removes the output file when convert() reports failure", file=DECODERS["maxtoppm"], line=ms.lineno)
+    rv = m.group(1)
+    removes = [c for c in ast.walk(ms) if isinstance(c, ast.Call) and unparse(c.func) == "os.remove"]
+    okr = re.search(rf"if not {rv}:\s+os\.remove\(", src) is not None
+    if not okr and removes:
+        # `if ok: return` (or the success path ending earlier) followed by the removal
+        for i_, st_ in enumerate(ms.body):
+            if isinstance(st_, ast.If) and unparse(st_.test) == rv and st_.body and isinstance(st_.body[-1], ast.Return) and not st_.orelse:
+                okr = any(any(x is removes[0] for x in ast.walk(later)) for later in ms.body[i_ + 1 :])
+    ctx.idiom("maxtoppm:remove-on-failure", bool(removes) or okr, okr, "" if okr else "start() no longer removes the output file when convert() reports failure", file=DECODERS["maxtoppm"], line=ms.lineno)
     # ... and convert() returns True at its end, False only under `not ignore_header_errors`
     cf = D.fn("maxtoppm", "convert")
     if "maxtoppm" in unmodelled_dec:
@@ -1423,6 +1439,8 @@ def d12(ctx: Ctx):
                                 grow = len(c.value.elts)
                             elif isinstance(c, ast.Call) and call_name(c) == "extend" and c.args and isinstance(c.args[0], (ast.Tuple, ast.List)):
                                 grow = len(c.args[0].elts)
+                            elif isinstance(c, ast.Call) and call_name(c) == "extend" and c.args and isinstance(c.args[0], (ast.GeneratorExp, ast.ListComp)) and len(c.args[0].generators) == 1 and isinstance(c.args[0].generators[0].iter, (ast.Tuple, ast.List)) and not c.args[0].generators[0].ifs:
+                                grow = len(c.args[0].generators[0].iter.elts)
                             if grow is not None:
                                 mult = 1
                                 for lp in ast.walk(b):
